@@ -200,8 +200,8 @@ def r_constr(sh, rep):
     f = find_fn(sh.file(PRM), "expect_data_constr")
     rep.touched(PRM, "expect_data_constr")
     src = sh.nsrc(PRM, f["body"])
-    rep.check(re.search(r"expected\.tag==constr\.tag|constr\.tag==expected\.tag", src) is not None, "R12-CONSTR", "expect_data_constr#compares-tag", sh.loc(PRM, f), "expect_data_constr must compare the CBOR tag of the expected constructor (UplcData::constr(index)) with the datum's")
-    rep.check(re.search(r"expected\.any_constructor==constr\.any_constructor|constr\.any_constructor==expected\.any_constructor", src) is not None, "R12-CONSTR", "expect_data_constr#compares-general-index", sh.loc(PRM, f), "expect_data_constr must also compare `any_constructor`: every constructor index >= 128 shares CBOR tag 102, so the tag alone accepts any of them where the validator accepts exactly one")
+    rep.check(re.search(r"(\w+)\.tag==(\w+)\.tag", src) is not None and re.search(r"(\w+)\.tag==(\w+)\.tag", src).group(1) != re.search(r"(\w+)\.tag==(\w+)\.tag", src).group(2), "R12-CONSTR", "expect_data_constr#compares-tag", sh.loc(PRM, f), "expect_data_constr must compare the CBOR tag of the expected constructor (UplcData::constr(index)) with the datum's")
+    rep.check(re.search(r"(\w+)\.any_constructor==(\w+)\.any_constructor", src) is not None and re.search(r"(\w+)\.any_constructor==(\w+)\.any_constructor", src).group(1) != re.search(r"(\w+)\.any_constructor==(\w+)\.any_constructor", src).group(2), "R12-CONSTR", "expect_data_constr#compares-general-index", sh.loc(PRM, f), "expect_data_constr must also compare `any_constructor`: every constructor index >= 128 shares CBOR tag 102, so the tag alone accepts any of them where the validator accepts exactly one")
     rep.check("constr(indexasu64" in src or "constr(index" in src, "R12-CONSTR", "expect_data_constr#expected-built-by-Data::constr", sh.loc(PRM, f), "the expected constructor must be built by Data::constr(index), the encoder the code generator uses", nontrivial=False)
 
 
